@@ -535,6 +535,98 @@ def _thread_returns(d, blocks, lo, hi, ret_local, glue, level, stack_of):
         blocks[prev]["t"] = {"k": "goto", "t": arm, "l": tt.get("l"), "threaded": True}
 
 
+def _thread_bools(blocks, level, stack_of, rounds=3):
+    """Jump threading across boolean joins: `let ok = a && b; if !ok {..}`, `if a || b`, a flag set on one path and tested
+    right after the join.  When a block only tests a boolean local (possibly through `!` / copies) and a predecessor path
+    assigned that local a literal, the path is connected straight to the matching arm.  The CFG then shows that the arm is
+    reached exactly on the conditions that decided the literal (`a` false), whichever way the condition was spelled."""
+    for _ in range(rounds):
+        changed = False
+        n0 = len(blocks)
+        for T in range(n0):
+            tb = blocks[T]
+            tt = tb["t"]
+            if tb.get("cleanup") or tt.get("k") != "switch" or tt.get("oty") != "bool":
+                continue
+            op = tt["o"].get("m") or tt["o"].get("c")
+            if op is None or op["p"]:
+                continue
+            base, pol, ok = op["l"], True, True
+            for st in reversed(tb["s"]):
+                if st.get("k") != "assign":
+                    continue
+                if st["p"]["p"] or st["p"]["l"] != base:
+                    ok = False    # the block computes something else as well: skipping it would lose that
+                    break
+                r = st["r"]
+                src = None
+                if r["k"] == "unop" and r.get("op") == "Not":
+                    src = r["o"].get("m") or r["o"].get("c")
+                    flip = True
+                elif r["k"] == "use":
+                    src = r["o"].get("m") or r["o"].get("c")
+                    flip = False
+                if src is None or src["p"]:
+                    ok = False
+                    break
+                base = src["l"]
+                pol = pol != flip
+            if not ok:
+                continue
+            f_tgt = [tgt for vv, tgt in tt["ts"] if vv == "0"]
+            if len(f_tgt) != 1 or len(tt["ts"]) != 1:
+                continue
+            preds = {}
+            for a in range(n0):
+                if blocks[a].get("cleanup"):
+                    continue
+                ta = blocks[a]["t"]
+                if ta.get("k") == "goto" and ta.get("t") == T:
+                    preds[a] = True
+            for a in sorted(preds):
+                # walk back along a linear chain of goto-only blocks to the literal assignment of `base`
+                chain = [a]
+                cur = a
+                val = None
+                for _hop in range(6):
+                    lit = None
+                    touched = False
+                    for st in blocks[cur]["s"]:
+                        if st.get("k") == "assign" and st["p"]["l"] == base:
+                            touched = True
+                            r = st["r"]
+                            if not st["p"]["p"] and r["k"] == "use" and "k" in r["o"] and r["o"]["k"].get("v") in ("true", "false"):
+                                lit = r["o"]["k"]["v"] == "true"
+                            else:
+                                lit = None
+                    if touched:
+                        val = lit
+                        break
+                    ps = [x for x in range(len(blocks)) if not blocks[x].get("cleanup") and cur in _normal_succ(blocks, x)]
+                    if len(ps) != 1 or blocks[ps[0]]["t"].get("k") != "goto":
+                        break
+                    cur = ps[0]
+                    chain.insert(0, cur)
+                if val is None:
+                    continue
+                taken = val if pol else (not val)
+                arm = tt["else"] if taken else f_tgt[0]
+                # chain[0] holds the literal; blocks after it up to `a` may be shared with other paths: copy them
+                prev = chain[0]
+                for src in chain[1:]:
+                    cp = copy.deepcopy(blocks[src])
+                    nid = len(blocks)
+                    blocks.append(cp)
+                    level[nid] = level.get(src, 0)
+                    stack_of[nid] = stack_of.get(src, ())
+                    blocks[prev]["t"] = dict(blocks[prev]["t"], t=nid)
+                    prev = nid
+                blocks[prev]["t"] = {"k": "goto", "t": arm, "l": blocks[prev]["t"].get("l"), "threaded": True}
+                changed = True
+        if not changed:
+            break
+
+
 def _trace_coroutine_local(blocks, arg0):
     """Local holding the coroutine that `Future::poll(Pin::new_unchecked(&mut f), cx)` polls (the `.await` desugaring):
     pinned ref <- Pin::new_unchecked(&mut X) <- X = into_future(Y) <- Y = moves ... <- coroutine aggregate."""
@@ -688,6 +780,8 @@ def inline(facts, fn, depth=2, want=None, expand=False):
                 _thread_returns(d, blocks, lo_, hi_, ret_, glue_, level, stack_of)
             except (KeyError, IndexError):
                 pass
+    if expand:
+        _thread_bools(blocks, level, stack_of)
     d.pop("_glues", None)
     g = Fn(fn.facts, fn.key, d)
     g.inlined = inlined
